@@ -800,6 +800,20 @@ fn build_and_broadcast_compact_block(
     }
 }
 
+/// The compatible verification is recursive and it never looks inside an extra field: a compact
+/// block which passed it may have extra fields in any nested table and anything as its own extra
+/// field.
+///
+/// The only thing a compact block is allowed to have beyond the `CompactBlock` schema is the
+/// extension, so it has to be either a strict `CompactBlock` or a strict `CompactBlockV1`.
+fn is_strict_compact_block(compact_block: &packed::CompactBlockReader<'_>) -> bool {
+    if compact_block.has_extra_fields() {
+        packed::CompactBlockV1Reader::verify(compact_block.as_slice(), false).is_ok()
+    } else {
+        packed::CompactBlockReader::verify(compact_block.as_slice(), false).is_ok()
+    }
+}
+
 #[async_trait]
 impl CKBProtocolHandler for Relayer {
     async fn init(&mut self, nc: Arc<dyn CKBProtocolContext + Sync>) {
@@ -842,6 +856,22 @@ impl CKBProtocolHandler for Relayer {
                             String::from(
                                 "send us a malformed message: \
                                  too many fields in CompactBlock",
+                            ),
+                        );
+                        return;
+                    } else if !is_strict_compact_block(reader) {
+                        info_target!(
+                            crate::LOG_TARGET_RELAY,
+                            "Peer {} sends us a malformed message: \
+                             malformed CompactBlock",
+                            peer_index
+                        );
+                        nc.ban_peer(
+                            peer_index,
+                            BAD_MESSAGE_BAN_TIME,
+                            String::from(
+                                "send us a malformed message: \
+                                 malformed CompactBlock",
                             ),
                         );
                         return;
